@@ -176,6 +176,13 @@ def run_case(case):
             rr[lo] = np.minimum(rr[lo], 0.0)
             rr[up] = np.maximum(rr[up], 0.0)
             inf_res = float(np.max(np.abs(rr))) if n else 0.0
+            c2 = float(np.linalg.norm(c)) if m else 0.0
+            if m >= 2 and cv > 0 and c2 > 1.05 * cv and rng.random() < 0.4:
+                # tolerances placed so that the largest row violation is within the tolerance while the Euclidean norm of
+                # the violations is not, at a point that counts as stationary for the violation measure
+                ftol = float(cv * (1.0 + rng.uniform(0.1, 0.9) * (c2 / cv - 1.0)))
+                ltol = float(2.0 * inf_res + 1e-300)
+                bump("feasibility_tolerance_between_max_and_euclidean_norm")
             margin = 1e-9
             if abs(cv - ftol) > margin * (ftol + cv) and abs(inf_res - ltol) > margin * (ltol + inf_res):
                 exp = (cv > ftol) and (inf_res <= ltol)
@@ -308,7 +315,7 @@ def finalize(agg, tier):
         "floors": {"compared_aug_lag_deriv_xx": 1000, "compared_value_at": 500, "compared_deriv": 1000,
                    "compared_active_set": 500, "active_set_nonempty": 200, "compared_locally_infeasible": 500,
                    "compared_keep_rows": 1000, "compared_scaled_deriv": 1000, "jacobian_dtype_float32": 100,
-                   "jacobian_dtype_bool": 30, "points_with_exactly_zero_constraints": 300,
+                   "jacobian_dtype_bool": 30, "points_with_exactly_zero_constraints": 300, "feasibility_tolerance_between_max_and_euclidean_norm": 200,
                    "compared_aug_lag_deriv_xx(other rho)": 2000},
         "assumptions": ["tolerance 1e-12 x (sum of absolute values of all terms) covers summation-order rounding only",
                         "active-set comparisons are skipped when the reference projection point lies within 1e-10 "
